@@ -1,26 +1,16 @@
-use moc::deser::ascii::from_ascii_ivoa;
-use moc::moc::{CellMOCIntoIterator, CellMOCIterator, CellOrCellRangeMOCIntoIterator, CellOrCellRangeMOCIterator, RangeMOCIterator, RangeMOCIntoIterator};
-use moc::moc::range::RangeMOC;
+use moc::moc2d::range::RangeMOC2;
+use moc::moc2d::RangeMOC2IntoIterator;
 use moc::qty::{Hpx, Time};
-use moc::ranges::Ranges;
+fn show(m: RangeMOC2<u64, Time<u64>, u64, Hpx<u64>>) {
+  for e in m.into_range_moc2_iter() { let (t, s) = e.mocs(); let sh = 59; println!("   t={:?} s={:?}", t.moc_ranges().0 .0.iter().map(|r| (r.start>>sh, r.end>>sh)).collect::<Vec<_>>(), s.moc_ranges().0 .0.iter().map(|r| (r.start>>58, r.end>>58)).collect::<Vec<_>>()); }
+}
 fn main() {
-  for txt in ["3/1", "3/1 3", "3/1 3 5", "3/1-2 5", "3/"] {
-    let ccr = from_ascii_ivoa::<u64, Hpx<u64>>(txt).unwrap();
-    let it = ccr.into_cellcellrange_moc_iter().ranges();
-    println!("{:?}: ranges-from-cellcellranges size_hint={:?}", txt, it.size_hint());
-    let mut buf = Vec::new();
-    let r = it.to_fits_ivoa(None, None, &mut buf);
-    println!("   to_fits: {:?} ({} bytes)", r.map_err(|e| e.to_string()), buf.len());
-    // cells
-    let ccr = from_ascii_ivoa::<u64, Hpx<u64>>(txt).unwrap();
-    let rm: RangeMOC<u64, Hpx<u64>> = ccr.into_cellcellrange_moc_iter().ranges().into_range_moc();
-    let d = rm.depth_max(); let cells: Vec<moc::elem::cell::Cell<u64>> = rm.into_range_moc_iter().cells().collect();
-    let cm = moc::moc::cell::CellMOC::<u64, Hpx<u64>>::new(d, moc::elemset::cell::MocCells::new(moc::elemset::cell::Cells::new(cells)));
-    let it = cm.into_cell_moc_iter().ranges();
-    println!("   ranges-from-cells size_hint={:?}", it.size_hint());
-    let mut buf = Vec::new();
-    let r = it.to_fits_ivoa(None, None, &mut buf);
-    println!("   to_fits: {:?} ({} bytes)", r.map_err(|e| e.to_string()), buf.len());
-  }
-  let _a: Option<RangeMOC<u64, Time<u64>>> = None; let _ = Ranges::<u64>::new_unchecked(vec![]);
+  // time depth 2 (8 cells), space depth 0
+  println!("cells (0,s0),(1,s1),(2,s0):");
+  show(RangeMOC2::from_fixed_depth_cells(2, 0, vec![(0u64,0u64),(1,1),(2,0)].into_iter(), None));
+  println!("cells (0,s0),(2,s0),(4,s1):");
+  show(RangeMOC2::from_fixed_depth_cells(2, 0, vec![(0u64,0u64),(2,0),(4,1)].into_iter(), None));
+  println!("ranges (0..2,s0),(4..6,s0),(2..4,s1):");
+  let u = 1u64<<59;
+  show(RangeMOC2::from_ranges_and_fixed_depth_cells(2, 0, vec![(0..2*u,0u64),(4*u..6*u,0),(2*u..4*u,1)].into_iter(), None));
 }
